@@ -225,7 +225,9 @@ func (p *Planner) expandSelectTopNodePlan(plan *selectTopNode, parentPlan *selec
 	// if we have an index that can take over ordering, we ignore the order node. This holds for the
 	// top level plan only: the scan of a joined plan is re-targeted for every parent document and
 	// does not follow the order of the index.
-	if plan.order != nil && (parentPlan != nil || !isOrderedByIndex(plan.selectNode.source)) {
+	// Deleted documents are not in the index, they are fetched separately and merged in.
+	if plan.order != nil && (parentPlan != nil || plan.selectNode.selectReq.ShowDeleted ||
+		!isOrderedByIndex(plan.selectNode.source)) {
 		plan.order.plan = plan.planNode
 		plan.planNode = plan.order
 	}
